@@ -616,7 +616,9 @@ Section Hier.
      cache; the tree is taken over (deep-copied for a GO source) *)
   Definition M_derive (st : ihgo) : ihgo := mk_ihgo (g_tree st) (g_cache st).
 
-  (* what `values_at_depth` answers in a state: the cache when present *)
+  (* what `values_at_depth` answers in a state: its own refresh decision is `if self._recache: self._update_array_cache()`
+     (index_hierarchy.py:959-960; regenerated fact gen_ih_values_at_depth_refreshes_iff_recache, and the same guard on every
+     other self-refreshing read: gen_ih_every_cache_refresh_guarded_by_recache) -- the cache is used exactly when present *)
   Definition go_blocks (st : ihgo) : res (list (list A)) :=
     match g_cache st with Some c => c | None => M_blocks (g_tree st) end.
 
